@@ -662,9 +662,11 @@ impl World {
     pub fn fresh_request_id(&mut self) -> RequestId {
         let v = self.next_req;
         self.next_req += 1;
-        // ids of 1..8 bytes, unique per world
+        // ids of 1..8 bytes, unique per world (distinct numeric values); every third id is padded with
+        // leading zero bytes, as peers with fixed-width counters send them
         let be = v.to_be_bytes();
-        let skip = be.iter().take_while(|b| **b == 0).count().min(7);
+        let minimal = be.iter().take_while(|b| **b == 0).count().min(7);
+        let skip = if v % 3 == 2 { minimal.saturating_sub(1 + (v as usize / 3) % 3) } else { minimal };
         RequestId(be[skip..].to_vec())
     }
 
